@@ -200,7 +200,8 @@ def triage(chk, events, verdicts, inputs_by_case=None, predicted=None):
                 if c["call"] in ("Decrypt", "AuthUser", "AuthOwner", "Auth") and \
                         any(p["rel"][k] != c["rel"][k] and c["rel"][k] != "unsure" for k in ("u", "o")):
                     raise vlib.ToolError("password relation computed by the harness %s differs from the spec's %s (token %s)" % (c["rel"], p["rel"], p["tok"]))
-                if sorted(p["tags"]) != sorted(tags) and ok_tags(tags):
+                undecided = "unsure" in (c["rel"]["u"], c["rel"]["o"], reset["cfg"]["e"]["u"], reset["cfg"]["e"]["o"])
+                if sorted(p["tags"]) != sorted(tags) and ok_tags(tags) and not undecided:
                     drift += 1   # the model predicted a deviation the code does not show (or another ok class)
                     note("verdict predicted by MC_Security differs", reset, calls, k, sorted(p["tags"]))
     return seen, drift
